@@ -265,6 +265,33 @@ theorem threeSum_spec (f : Fmt) (ok : f.Ok) {x y z : F} (hx : x.Rep f) (hy : y.R
   refine ⟨hx', hy', hz', ?_⟩
   omega
 
+/-- model-level `three_sum2`: `r0` is the correctly rounded `z + RN(x + y)`, and `r1` is ONE rounding of the exact
+    residual `x + y + z − r0` (the two `two_sum` residuals `v`, `w` are exact, their sum `v + w` is rounded once). -/
+theorem threeSum2_spec (f : Fmt) (ok : f.Ok) {x y z : F} (hx : x.Rep f) (hy : y.Rep f) (hz : z.Rep f)
+    (hg : 2 * (x.mag + y.mag + z.mag) ≤ maxMag f) :
+    (threeSum2 f x y z).1.Rep f ∧ (threeSum2 f x y z).2.Rep f ∧
+    (threeSum2 f x y z).1.toInt = rnInt f.p (z.toInt + rnInt f.p (x.toInt + y.toInt)) ∧
+    (threeSum2 f x y z).2.toInt
+      = rnInt f.p (x.toInt + y.toInt + z.toInt - (threeSum2 f x y z).1.toInt) := by
+  have hp : 1 ≤ f.p := by have := ok.hp2; omega
+  have g1 : x.mag + y.mag ≤ maxMag f := by omega
+  obtain ⟨hu, hv, huv, hur⟩ := twoSum_spec f ok hx hy g1
+  obtain ⟨hv1, hv2, hu1⟩ := twoSum_residual_le f ok hx hy g1
+  have g2 : z.mag + (twoSum f x y).1.mag ≤ maxMag f := by omega
+  obtain ⟨hx', hw, hxw, hxr⟩ := twoSum_spec f ok hz hu g2
+  obtain ⟨hw1, hw2, _⟩ := twoSum_residual_le f ok hz hu g2
+  have g3 : ((twoSum f x y).2.toInt + (twoSum f z (twoSum f x y).1).2.toInt).natAbs ≤ maxMag f := by
+    rw [F.mag_eq_natAbs, F.mag_eq_natAbs x] at hv1
+    rw [F.mag_eq_natAbs, F.mag_eq_natAbs z] at hw1
+    rw [F.mag_eq_natAbs x, F.mag_eq_natAbs y, F.mag_eq_natAbs z] at hg
+    omega
+  obtain ⟨hr1, hr1v⟩ := add_spec f hp ok.hpt hv.1 hw.1 g3
+  unfold threeSum2
+  simp only
+  refine ⟨hx', hr1, ?_, ?_⟩
+  · rw [hxr, hur]
+  · rw [hr1v]; congr 1; omega
+
 /-- every finite pattern of an IEEE-style encoding decodes to a representable value of the model:
     the hypotheses `a.Rep f` of the theorems hold for every operand that can occur in a transcript. -/
 theorem ofBits_rep (p ew b : Nat) (hp : 1 ≤ p) (h : (ofBits p ew b).isFinite = true) :
